@@ -23,6 +23,8 @@ type Env struct {
 	pkg       *types.Package
 	contract  *FuncContract
 	depth     int
+	laxLocals bool // a local declared later in the function evaluates to an arbitrary value
+	loopIdx   *ssa.Alloc // hidden index of the range loop whose invariant is evaluated ($idx)
 }
 
 func (ex *Exec) specEnv(fr *Frame, st *State, pos token.Pos) *Env {
@@ -236,10 +238,30 @@ func (ex *Exec) specIdent(env *Env, name string) *Value {
 	if v, ok := env.vars[name]; ok {
 		return v
 	}
+	if name == "$idx" {
+		// index of the last completed iteration of the enclosing range loop (-1 before the first)
+		if env.loopIdx == nil {
+			specFail("$idx outside a range loop invariant")
+		}
+		if cell, ok := env.localsState().locals[env.loopIdx]; ok {
+			return cell
+		}
+		specFail("$idx: range index not initialised here")
+	}
 	// local variable of the function being executed, by scope at env.pos
 	if env.fr != nil {
 		if v := ex.localByName(env, name); v != nil {
 			return v
+		}
+		if env.laxLocals {
+			for _, b := range env.fr.fn.Blocks {
+				for _, in := range b.Instrs {
+					if a, ok := in.(*ssa.Alloc); ok && a.Comment == name {
+						hv, _ := ex.havoc(deref(a.Type()), "undeclared."+name)
+						return hv
+					}
+				}
+			}
 		}
 	}
 	if _, ok := ex.prog.ghostDecls[name]; ok {
@@ -872,7 +894,11 @@ func (ex *Exec) specCall(env *Env, e *ECall) *Value {
 			}
 			return v
 		}
-		tb.DeclareUF(uf.Name, sorts, uf.Ret)
+		if uf.SMTDef != "" {
+			tb.AddDef(uf.Name, uf.SMTDef)
+		} else {
+			tb.DeclareUF(uf.Name, sorts, uf.Ret)
+		}
 		r := tb.App(uf.Name, uf.Ret, as...)
 		if uf.Ret == SBool {
 			return ex.boolV(r)
@@ -1056,11 +1082,12 @@ func rebaseOffset(body, v *Term) *Term {
 					} else if off != idx.Args[1] {
 						ok = false
 					}
-				} else if idx != v {
-					ok = false
-				} else {
+				} else if idx == v {
 					ok = false // already absolute somewhere: leave alone
+				} else if idx.Op == "+" || idx.Op == "-" || idx.Op == "*" {
+					ok = false // some other arithmetic form of the index
 				}
+				// otherwise (e.g. an index that is itself an array read): decided by the inner reads
 			}
 		}
 		for _, a := range t.Args {
